@@ -118,7 +118,9 @@ def gcRepo (s : State) (r : String) : State :=
   let rp1 : Repo := { rp with blobs := blobs1, index := ix1, old := rp.old.filter fun d => blobs1.any (·.1 = d) }
   -- index entries without a backing blob
   let ix2 := inIdx0.foldl (fun ix g => if rp1.hasDigStr g then ix else rmDesc ix { dig := g }) ix1
-  s.setRepo { rp1 with index := ix2 }
+  -- child records without a backing blob (their parent may not have been walked; repair F41)
+  let ix3 := ix2.children.foldl (fun ix c => if rp1.hasDigStr c.dig then ix else rmDesc ix { dig := c.dig }) ix2
+  s.setRepo { rp1 with index := ix3 }
 
 /-! ### ages: what makes a blob recent again
 
